@@ -34,7 +34,7 @@ SVALS = ['$merge:a', '$merge:a.b', '$merge:', '$replace:a', '$replace:b.c', '$"{
 ARGS = [None, True, False, 0, 1, 2, 3, -1, 6, 1.5, [], ['a'], ['a', 'b'], [1], [{'a': 1}, 'b'], [{}], {}, {'a': 1}, {'$match': {}, '$path': 'a'}, {'$match': {'a': 1}}, {'$merge': 'a'},
         {'a': 2, 'b': 3}, [['a']], {'$path': 'a'}, [None], ['json', 'base64'], ['tolist:=', 'join:,'], [5]]
 LENTRIES = [{'$merge': 'a'}, {'$merge': 'b.c'}, {'$replace': 'a'}, {'$output': True}, {'$output': False}, {'$replace': True}, {'$delete': 1}, {'$delete': {'a': 1}}, {'$match': {}, 'x': 1},
-            {'$match': {'a': 1}, '$value': 2}, {'$repeat': 2, 'i': '$repeat'}, {'$encode': 'json'}, {'$encode': 'join:,'}, '$required', '$replace', {'$repeat': 2}, {'$match': None}, {'$merge': ['a']}]
+            {'$match': {'a': 1}, '$value': 2}, {'$repeat': 2, 'i': '$repeat'}, {'$repeat': -1, 'i': '$repeat'}, {'$repeat': -2}, {'$encode': 'json'}, {'$encode': 'join:,'}, '$required', '$replace', {'$repeat': 2}, {'$match': None}, {'$merge': ['a']}]
 
 
 def hval(rng, depth):
@@ -57,7 +57,7 @@ def htree(rng, depth):
             k = rng.choice(DIRS) if rng.random() < 0.35 else (rng.choice(KEYS) if rng.random() < 0.8 else rng.choice(SVALS))
             out[k] = hval(rng, depth)
             if k == '$repeat' and rng.random() < 0.7:
-                out[k] = rng.choice([0, 1, 2, 3, {'a': 2}, {'a': 2, 'b': 2}, 6])
+                out[k] = rng.choice([0, 1, 2, 3, {'a': 2}, {'a': 2, 'b': 2}, 6, -1, -2, {'a': -1}, {'a': 1, 'b': -3}])
         return out
     out = []
     for _ in range(rng.randint(0, 4)):
@@ -293,7 +293,8 @@ def gen_cycle(rng):
         docs = [rng.choice([{'a': {'b': {'$merge': 'a'}}}, {'a': {'a': 1, '$merge': []}}, {'a': {'b': {'c': {'$merge': 'a.b'}}}}, {'a': {'b': '$merge:a'}}, {'a': {'b': [{'$merge': 'a'}]}},
                             {'x': {'y': {'$replace': 'x'}}}, {'a': {'b': {'$merge': 'a', 'k': 1}, 'c': 2}}, {'$merge': 'a', 'a': {'b': {'$merge': 'a'}}},
                             {'a': {'b': [{'$merge': 'a', 'k': 1}]}}, {'svc': {'sidecars': [{'name': 'proxy', '$merge': 'svc'}, 1]}}, {'a': [[{'x': 1, '$merge': 'a'}]]},
-                            {'a': {'l': [{'m': {'$merge': 'a', 'k': 1}}]}}])]
+                            {'a': {'l': [{'m': {'$merge': 'a', 'k': 1}}]}}, {'a': {'matrix': [[{'$merge': 'a', 'y': 1}]]}}, {'a': {'m': [[[{'k': {'$merge': 'a', 'y': 1}}]]]}},
+                            {'a': {'m': [1, [2, [{'$merge': 'a.m', 'y': 1}]]]}}])]
     elif kind == 'branch':
         docs = [rng.choice([{'c': {'a': {'$merge': 'c'}, 'c': {'$merge': 'c', 'a': 'q'}}}, {'c': {'a': '$merge:c', 'b': '$merge:c'}}, {'p': {'a': {'$merge': 'q'}, 'b': {'$merge': 'q'}}, 'q': {'a': {'$merge': 'p'}, 'b': {'$merge': 'p'}}},
                             {'l': [{'$merge': 'm'}, {'$merge': 'm'}], 'm': [{'$merge': 'l'}, {'$merge': 'l'}]}, {'a': {'$replace': 'b'}, 'b': {'x': {'$replace': 'a'}, 'y': {'$replace': 'a'}}}])]
@@ -323,7 +324,7 @@ def fixed_cases(tier):
     import base64
     for y in (b'a: &anchor\n  <<: *anchor\n', b'a: &x\n  - *x\n', b'a: &x\n  b: &y\n    c: *x\n', b'&r [*r]\n', b'a: &x {k: *x}\n', b'x: &a\n  <<: [*a]\n'):
         out.append({'kind': 'bytes', 'ext': 'yaml', 'b64': base64.b64encode(y).decode(), 'fmt': 'json', 'tools': True})
-    for d in ({'$repeat': 0, 'a': 1}, [{'$repeat': 0}, 1], {'$repeat': 1, 'a': 1}, {'$repeat': {'a': 0}, 'b': 1}, {'$output': False, 'a': 1}, {'$merge:a': 1, 'a': 5}, {'$"{a}"': 1, 'a': 5}, {'$repeat': 2, '$repeat2': 1}, {'a': {'$repeat': 2, 'k': 1}}, {'$env:HOME': {'$repeat': 1}}, {'k': {'$repeat': 1, '$value': 2}}):
+    for d in ({'$repeat': -1, 'a': 1}, {'$repeat': {'a': -1, 'b': 2}, 'x': 1}, {'l': [{'$repeat': -1, 'i': 1}]}, {'m': {'k': {'$repeat': -2, 'i': 1}}}, [{'$repeat': -1}, 1], {'$repeat': 0, 'a': 1}, [{'$repeat': 0}, 1], {'$repeat': 1, 'a': 1}, {'$repeat': {'a': 0}, 'b': 1}, {'$output': False, 'a': 1}, {'$merge:a': 1, 'a': 5}, {'$"{a}"': 1, 'a': 5}, {'$repeat': 2, '$repeat2': 1}, {'a': {'$repeat': 2, 'k': 1}}, {'$env:HOME': {'$repeat': 1}}, {'k': {'$repeat': 1, '$value': 2}}):
         out.append({'kind': 'struct', 'layers': [[d]], 'fmt': 'json', 'files': True, 'tools': True})
     return out
 
